@@ -166,10 +166,13 @@ PortOfTrack(sg, c, ti) ==
   IF nm = <<>> \/ ~TrackPlays(c, ti) THEN 0 ELSE (CHOOSE q \in DOMAIN names : names[q] = nm) - 1
 \* the generated songs give track k (0-based) the file channels k and k + 10
 PortOfFileChannel(sg, c, ch) == LET ti == TrkOfCh(ch) + 1 IN IF ti \in DOMAIN sg.tracks THEN PortOfTrack(sg, c, ti) ELSE 0
-\* the synth-side response to entry j of a call's log: the tap entries up to the next delivered event / hook call
+\* the synth-side response to entry j of a call's log: the tap entries up to the next delivered event / hook call.  A note that
+\* STARTS uploads its patch to the chip channel and keys it on; a key-on alone is a re-key of a sounding note (vibrato, glide: they
+\* follow the events of the same tick call) and says nothing about the note-on in front of it
 RECURSIVE RespKeyed(_, _)
 RespKeyed(L, j) == IF j > Len(L) \/ L[j][1] \in {"e", "h"} THEN FALSE
-                   ELSE IF L[j][1] = "k" /\ L[j][3] = 1 THEN TRUE ELSE RespKeyed(L, j + 1)
+                   ELSE IF L[j][1] = "p" /\ j + 1 <= Len(L) /\ L[j + 1][1] = "k" /\ L[j + 1][3] = 1 /\ L[j + 1][2] = L[j][2] THEN TRUE
+                   ELSE RespKeyed(L, j + 1)
 \* every note-on shown to the raw-event hook (velocity > 0; melodic channels with instruments 0..15 only in these songs) keys a
 \* chip channel on unless its synthesizer channel is switched off, and never when it is
 ChanMaskCall(L, sg, c) ==
@@ -404,7 +407,7 @@ StepPlayBig(ev) ==
       judged == ~pos.moved /\ "partial" \notin DOMAIN ev /\ "until" \notin DOMAIN ev /\ expectedToEnd
       f == IF judged THEN {"delivery-count"} \cup Lbl(ev.atend = 1, "not-at-end") ELSE {}
   IN /\ fails' = AddFails(Tag(IF cfg.loopEn THEN "C09" ELSE "C07", f, ev, ToString(<<"runaway play: events", IF "ne" \in DOMAIN ev THEN ev.ne ELSE -1, "log cut", ev.trunc, "n", cfg.loopN>>)))
-     /\ pos' = [pos EXCEPT !.moved = TRUE, !.stgt = -1]
+     /\ pos' = [pos EXCEPT !.moved = TRUE, !.stgt = -1, !.t = IF ev.calls = <<>> THEN @ ELSE ev.calls[Len(ev.calls)][2]]
      /\ UNCHANGED <<song, cfg, exec, drift>>
      /\ cnt' = [cnt EXCEPT !.steps = @ + 1, !.plays = @ + 1, !.loopPlays = @ + (IF cfg.loopEn THEN 1 ELSE 0)]
 StepPlayNormal(ev) ==
